@@ -117,6 +117,9 @@ const (
 	opFatalVal         // Fatalf at site D whose MESSAGE depends on the last drawn bool (same traceback, two messages)
 	opErrorEmpty       // t.Error() with no arguments: a non-fatal failure whose message is the empty string
 	opPanicNil         // panic(nil)
+	opDrawRune         // RuneFrom(3 runes of different encoded length).Draw: loaded die + index draw
+	opHelperA          // Fatalf at the first of two sites inside ONE helper function that calls t.Helper()
+	opHelperB          // Fatalf at the second site of the same helper (same caller line)
 	opCount
 )
 
@@ -283,6 +286,14 @@ func (p *vProg) execCB(t *T, ops []uint8, inv *vInv, inCallback bool, inCleanup 
 			inv.signals++
 			inv.nonFatal++
 			t.Errorf("non-fatal failure")
+		case opDrawRune:
+			inv.attempts++
+			r := RuneFrom([]rune{'a', 'é', '日'}).Draw(t, "r")
+			inv.draws = append(inv.draws, uint64(r))
+		case opHelperA, opHelperB:
+			inv.signals++
+			inv.fatalAt = 13 + int(op-opHelperA)
+			helperFail(t, op == opHelperB)
 		case opErrorEmpty:
 			inv.signals++
 			inv.nonFatal++
@@ -507,4 +518,14 @@ func concProgs(name string, g, k int, alphabet []uint8) [][]uint8 {
 		}
 	}
 	return progs
+}
+
+// helperFail is an assertion helper in the style of testing helpers: it calls t.Helper() and has
+// two distinct failure sites.
+func helperFail(t *T, second bool) {
+	t.Helper()
+	if !second {
+		t.Fatalf("helper: first check failed")
+	}
+	t.Fatalf("helper: second check failed")
 }
